@@ -11,7 +11,7 @@ VARIABLES hist,       \* scripts of the questions asked so far
 gvars == <<vars, hist, first>>
 
 G_SearchSet  == {<<>>, <<0>>, <<1>>, <<1, 2>>, <<1, 0, 2>>, <<2, 1, 0>>}
-G_SearchSetT == G_SearchSet \cup {<<0, 1>>, <<2, 0>>, <<1, 2, 3>>, <<3, 0, 1, 2>>}
+G_SearchSetT == G_SearchSet \cup {<<0, 1>>, <<2, 0>>, <<1, 2, 3>>}
 G_None == {{}}
 MCQ_SearchX == {<<>>}
 G_TooLong == {{}, {2}}
